@@ -334,39 +334,39 @@ func sfDirected(maxLen int) []engCase {
 		tokens []string
 	}
 	ds := []d{
-		{`abc`, 0, false, []string{"a", "b", "c", "ab", "\xff"}},                                    // LeadingString
-		{"\u00e9a", 0, false, []string{"\u00e9", "a", "\xc3", "\xa9", "x"}},                         // … multi-byte literal, its bytes alone
-		{"\U0001F601a", 0, false, []string{"\U0001F601", "a", "\xf0\x9f", "\x98\x81", "\xf0"}},      // … astral
-		{`ab`, ci, false, []string{"a", "B", "A", "b", "\u212a"}},                                  // LeadingString_OrdinalIgnoreCase
-		{`k[ab]c`, ci, false, []string{"k", "K", "\u212a", "a", "c"}},                              // Kelvin sign
-		{`(?:abc|abd|xy)`, 0, true, []string{"a", "b", "c", "d", "xy"}},                             // LeadingStrings, ASCII set scanner (shared first byte)
-		{`(?:ear|hearts)`, 0, true, []string{"h", "ear", "ts", "e", "\xff"}},                        // LeadingStrings, fallback
-		{`(?:bcd|abcde)f`, ci, true, []string{"a", "BCD", "e", "f", "bcd"}},                         // LeadingStrings_OrdinalIgnoreCase
-		{"(?:\u00e9a|xb)", 0, true, []string{"\u00e9", "a", "x", "b", "\xc3"}},                       // LeadingStrings with a non-ASCII prefix
-		{`[ab]x..`, 0, false, []string{"a", "b", "x", "\u00e9", "\xff"}},                            // LeadingSet / FixedDistanceSets
-		{`[a-c]\d`, 0, false, []string{"a", "c", "1", "d", "\x80"}},                                 // LeadingSet, range
-		{`..a`, 0, false, []string{"a", "b", "\u00e9", "\xff", "\U0001F601"}},                       // FixedDistanceChar
+		{`abc`, 0, false, []string{"a", "b", "c", "ab", "\xff"}},                               // LeadingString
+		{"\u00e9a", 0, false, []string{"\u00e9", "a", "\xc3", "\xa9", "x"}},                    // … multi-byte literal, its bytes alone
+		{"\U0001F601a", 0, false, []string{"\U0001F601", "a", "\xf0\x9f", "\x98\x81", "\xf0"}}, // … astral
+		{`ab`, ci, false, []string{"a", "B", "A", "b", "\u212a"}},                              // LeadingString_OrdinalIgnoreCase
+		{`k[ab]c`, ci, false, []string{"k", "K", "\u212a", "a", "c"}},                          // Kelvin sign
+		{`(?:abc|abd|xy)`, 0, true, []string{"a", "b", "c", "d", "xy"}},                        // LeadingStrings, ASCII set scanner (shared first byte)
+		{`(?:ear|hearts)`, 0, true, []string{"h", "ear", "ts", "e", "\xff"}},                   // LeadingStrings, fallback
+		{`(?:bcd|abcde)f`, ci, true, []string{"a", "BCD", "e", "f", "bcd"}},                    // LeadingStrings_OrdinalIgnoreCase
+		{"(?:\u00e9a|xb)", 0, true, []string{"\u00e9", "a", "x", "b", "\xc3"}},                 // LeadingStrings with a non-ASCII prefix
+		{`[ab]x..`, 0, false, []string{"a", "b", "x", "\u00e9", "\xff"}},                       // LeadingSet / FixedDistanceSets
+		{`[a-c]\d`, 0, false, []string{"a", "c", "1", "d", "\x80"}},                            // LeadingSet, range
+		{`..a`, 0, false, []string{"a", "b", "\u00e9", "\xff", "\U0001F601"}},                  // FixedDistanceChar
 		{`(?s)..a`, 0, false, []string{"a", "\n", "\xe2\x82", "\xff", "\u20ac"}},
-		{".\uFFFD", sl, false, []string{"a", "\xff", "\xef\xbf\xbd", "\xef\xbf", "\xc3"}},           // U+FFFD at a fixed distance: every invalid byte
+		{".\uFFFD", sl, false, []string{"a", "\xff", "\xef\xbf\xbd", "\xef\xbf", "\xc3"}}, // U+FFFD at a fixed distance: every invalid byte
 		{"..\uFFFD", sl, false, []string{"a", "\xff", "\xef\xbf\xbd", "\u00e9", "\xed\xa0\x80"}},
-		{"..\u00e9", sl, false, []string{"a", "\u00e9", "\xc3", "\xa9", "\xff"}},                    // multi-byte char at a fixed distance
+		{"..\u00e9", sl, false, []string{"a", "\u00e9", "\xc3", "\xa9", "\xff"}}, // multi-byte char at a fixed distance
 		{".\U0001F601", sl, false, []string{"a", "\U0001F601", "\xf0\x9f\x98", "\x81", "\xf0"}},
-		{`..abab`, 0, false, []string{"a", "b", "ab", "x", "\xff"}},                                 // FixedDistanceString, self-overlapping
+		{`..abab`, 0, false, []string{"a", "b", "ab", "x", "\xff"}}, // FixedDistanceString, self-overlapping
 		{`.aa`, 0, false, []string{"a", "b", "\u00e9", "\xff"}},
 		{".\u00e9a", sl, false, []string{"a", "\u00e9", "\xc3", "\xa9", "\xff"}},
-		{`\w+@x`, 0, false, []string{"a", "@x", "@", " ", "\xff"}},                                  // LiteralAfterLoop, string
-		{`\w+@X`, ci, false, []string{"a", "@x", "@X", " ", "\xff"}},                                // … ignore-case
-		{`[a-c]+x`, 0, false, []string{"a", "x", " ", "\xff", "\u00e9"}},                            // … char
-		{`\d+[xy]`, 0, false, []string{"1", "x", "y", " ", "\xff"}},                                 // … chars
-		{"\\d+[x\uFFFD]", 0, false, []string{"1", "x", "\xff", "\xef\xbf\xbd", " "}},                 // … chars with U+FFFD
-		{"\\d+\uFFFD", 0, false, []string{"1", "x", "\xff", "\xef\xbf\xbd", "\xc3"}},                 // … char U+FFFD
+		{`\w+@x`, 0, false, []string{"a", "@x", "@", " ", "\xff"}},                   // LiteralAfterLoop, string
+		{`\w+@X`, ci, false, []string{"a", "@x", "@X", " ", "\xff"}},                 // … ignore-case
+		{`[a-c]+x`, 0, false, []string{"a", "x", " ", "\xff", "\u00e9"}},             // … char
+		{`\d+[xy]`, 0, false, []string{"1", "x", "y", " ", "\xff"}},                  // … chars
+		{"\\d+[x\uFFFD]", 0, false, []string{"1", "x", "\xff", "\xef\xbf\xbd", " "}}, // … chars with U+FFFD
+		{"\\d+\uFFFD", 0, false, []string{"1", "x", "\xff", "\xef\xbf\xbd", "\xc3"}}, // … char U+FFFD
 		{"\\d+\u00e9", 0, false, []string{"1", "\u00e9", "\xc3", "\xa9", "\xff"}},
-		{"a\uFFFDb", 0, false, []string{"a", "\xff", "\xef\xbf\xbd", "b"}},                          // U+FFFD in the literal: no filter
+		{"a\uFFFDb", 0, false, []string{"a", "\xff", "\xef\xbf\xbd", "b"}}, // U+FFFD in the literal: no filter
 		{"..a\uFFFD", sl, false, []string{"a", "\xff", "\xef\xbf\xbd", "b"}},
 		{"\\w+@\uFFFD", 0, false, []string{"a", "@", "\xff", "\xef\xbf\xbd"}},
-		{`\Gab`, 0, false, []string{"a", "b", "ab"}},                                                // \G: no filter
+		{`\Gab`, 0, false, []string{"a", "b", "ab"}}, // \G: no filter
 		{`(?<=\Ga)bc`, 0, false, []string{"a", "bc", "b"}},
-		{`ab`, rtl, false, []string{"a", "b", "ab"}},                                                // right-to-left: no filter
+		{`ab`, rtl, false, []string{"a", "b", "ab"}}, // right-to-left: no filter
 	}
 	var out []engCase
 	for _, x := range ds {
